@@ -147,6 +147,12 @@ def gen_plan(seed, tier):
         pick = r.choice(vecs)
         base = pick[0] if kind in ("mineq", "minge") else pick[-1]
         c = base + r.choice([0, 0, 0, 0, 1, -1, 3, -7, 50, -50])
+        if r.random() < 0.3:
+            # a constant next to a sum of the greedy (LPT) partition of the requested copies, at ANY position of it:
+            # the natural 'other' partition an implementation may look at (bounds, warm starts, canonical outputs)
+            g = refmodels.lpt_sums([v for v, cnt in zip(values, cl) for _ in range(cnt)], k)
+            if g:
+                c = r.choice(list(g)) + r.choice([0, 0, 1, 1, -1, 2])
         if r.random() < 0.08:
             c = r.choice([0, -1, sum(values) * 3 + 1])
         plan["constraint"] = {"kind": kind, "c": c}
